@@ -19,7 +19,7 @@ import (
 
 type sfCase struct {
 	Name   string `json:"name"`
-	Cause  string `json:"cause"`  // "line", "silent", "partial", "exitearly", "closeout"
+	Cause  string `json:"cause"`  // "line", "mismatch", "silent", "partial", "exitearly", "closeout"
 	Launch string `json:"launch"` // "cmd", "runner"
 	Line   hsLine `json:"line"`   // for cause "line"
 	Cfg    hsCfg  `json:"cfg"`
@@ -53,6 +53,16 @@ func runStartFailCase(c sfCase, bin, tmp string) map[string]interface{} {
 		}
 		pc.MockLine, pc.MockThen = raw, "idle"
 		out["raw"] = raw
+	case "mismatch":
+		// a real, serving plugin (its socket exists in the runner's directory by the time it prints its
+		// line) that this host has to turn down: wrong protocol, or no common version
+		pc.LegacyVersion, pc.Legacy, pc.GRPCServer = 1, &vp.SetCfg{Proto: "grpc", Tag: "1"}, true
+		hc.TLS, hc.Mux = "", false
+		if c.Var%2 == 0 {
+			hc.Allowed, hc.AllowedSet = []string{"netrpc"}, false
+		} else {
+			hc.Allowed, hc.LegacyVersion = []string{"netrpc", "grpc"}, 7
+		}
 	case "silent":
 		pc.MockThen = "idle"
 	case "partial":
